@@ -232,6 +232,17 @@ def run_one(seed, preset=None, tier="quick", want_case=False):
         from simv.model.schema import DirUse
         base.schema_directives = [DirUse("nonIntrospectable")]
     chunks = chunks_of(base, exts)
+    spt = tape.sub("spell")
+    if spt.chance(50):
+        # the same definitions written differently: other ignored tokens (commas, comments, CR / CRLF / no
+        # line ends, nothing at all between punctuators), leading `|` in unions, files not ending in a newline
+        from simv.gen.sdl_spelling import respell, same_tokens
+        respelled = [respell(c, spt) if spt.chance(70) else c for c in chunks]
+        assert all(same_tokens(a, b) for a, b in zip(chunks, respelled))
+        chunks = respelled
+        respelt = 1
+    else:
+        respelt = 0
     canonical = "\n".join(chunks)
     modes = cfgt.shuffle(["string", "file", "files", "dir"])[: cfgt.rint(2, 4)]
     tmp = tempfile.mkdtemp(prefix="simv_c11_")
@@ -248,7 +259,7 @@ def run_one(seed, preset=None, tier="quick", want_case=False):
                 supplies[mode] = "\n".join(cfgt.shuffle(chunks)) if cfgt.chance(50) else canonical
             elif mode == "file":
                 p = os.path.join(tmp, "one_%d.graphql" % mi)
-                with open(p, "w", encoding="utf-8") as f:
+                with open(p, "w", encoding="utf-8", newline="") as f:
                     f.write("\n".join(ft.shuffle(chunks)))
                 supplies[mode] = p
             else:
@@ -270,8 +281,8 @@ def run_one(seed, preset=None, tier="quick", want_case=False):
                         # the same file name in several sub-directories is ordinary practice
                         p = os.path.join(sub, "schema" + ext)
                         same_names[0] += 1
-                    with open(p, "w", encoding="utf-8") as f:
-                        f.write("\n".join(b) + "\n")
+                    with open(p, "w", encoding="utf-8", newline="") as f:
+                        f.write("\n".join(b) + (ft.choose(["\n", "", "\n# end of file, no newline"]) if respelt else "\n"))
                     paths.append(p)
                 layout_desc[mode] = [os.path.relpath(p, root) for p in paths]
                 supplies[mode] = ft.shuffle(paths) if mode == "files" else root
@@ -464,7 +475,7 @@ def run_one(seed, preset=None, tier="quick", want_case=False):
     r["metrics"] = {"engines": len(modes), "extensions": len(exts), "types": len(schema.types), "custom_directives": len(schema.directives),
                     "files_written": sum(len(v) for v in layout_desc.values())}
     r["probes"] = {"mode_" + m: 1 for m in modes}
-    r["probes"].update({"schema_nonIntrospectable": int(hidden_schema), "hidden_field": int(any(getattr(f, "hidden", False) for td in schema.types.values() if td.kind == "OBJECT" for f in td.fields.values())),
+    r["probes"].update({"sdl_respelt": respelt, "schema_nonIntrospectable": int(hidden_schema), "hidden_field": int(any(getattr(f, "hidden", False) for td in schema.types.values() if td.kind == "OBJECT" for f in td.fields.values())),
                         "extend_schema": int(any(e.kind == "SCHEMA" for e in exts)), "extend_union": int(any(e.kind == "UNION" for e in exts)),
                         "extend_enum": int(any(e.kind == "ENUM" for e in exts)), "extend_input": int(any(e.kind == "INPUT_OBJECT" for e in exts)),
                         "extend_interface": int(any(e.kind == "INTERFACE" for e in exts)), "extend_object": int(any(e.kind == "OBJECT" for e in exts)),
